@@ -376,7 +376,7 @@ def conc_str(chars):
 class FmtArgs:
     def __init__(s, tpl, args): s.tpl, s.args = tpl, args
 class FmtArg:
-    def __init__(s, kind, val): s.kind, s.val = kind, val
+    def __init__(s, kind, val, ty=None): s.kind, s.val, s.ty = kind, val, ty
 class Formatter:
     """core::fmt::Formatter writing into `out` (list of (cp, w)); flags: alternate"""
     def __init__(s, out, alternate=False, spec=None):
@@ -423,15 +423,17 @@ def render(it, fa, out, alternate_default=False):
                 ai = tpl[k] | (tpl[k + 1] << 8); k += 2
             arg = args[ai]; ai += 1
             alt = bool(flags is not None and (flags >> 23) & 1)
-            fmt_value(it, arg.kind, arg.val, Formatter(out, alt, spec))
+            fmt_value(it, arg.kind, arg.val, Formatter(out, alt, spec), arg.ty)
         else:
             raise Unsupported('fmt template byte 0x%x' % n)
 
 
-def fmt_value(it, kind, val, f):
+def fmt_value(it, kind, val, f, ty=None):
     """Display/Debug/LowerHex... of a value into formatter f"""
     v = val
     while isinstance(v, Ref): v = v.get()
+    nf = getattr(it.prog, 'numfmt', None)
+    if nf is not None and nf(it, kind, v, f, ty): return
     h = getattr(it.prog, 'fmt_hook', None)
     if h is not None:
         r = h(it, kind, v, f)
@@ -1261,7 +1263,9 @@ def install(prog):
     def _(it, m, a):
         kind = {'display': 'display', 'debug': 'debug', 'lower_hex': 'lowerhex', 'octal': 'octal', 'binary': 'binary', 'lower_exp': 'lowerexp'}[m.group(1)]
         if m.group(2) in ('char', '&char') and kind == 'display': kind = 'display_char'
-        return FmtArg(kind, a[0])
+        ty = m.group(2)
+        while ty.startswith('&'): ty = ty[1:]
+        return FmtArg(kind, a[0], ty)
 
     @M(r'Arguments::new::<\d+, \d+>|Arguments::new_v1::<\d+, \d+>|core::fmt::Arguments::new::<\d+, \d+>')
     def _(it, m, a): return FmtArgs(a[0], a[1])
@@ -1565,6 +1569,19 @@ def install(prog):
     def _(it, m, a):
         for c, _ in as_str(it, a[0]).chars():
             if it.branch(it.binop('Eq', c, a[1], 'char')): return True
+        return False
+
+    @M(r'core::str::<impl str>::contains::<&?\[char(?:; \d+)?\]>')
+    def _(it, m, a):
+        pat = deref(a[1])
+        if isinstance(pat, SliceRef): pat = pat.lst()[pat.lo:pat.hi]
+        if isinstance(pat, Agg): pat = pat.f
+        pat = [deref(p) for p in pat]
+        for c, _ in as_str(it, a[0]).chars():
+            if not is_sym(c):
+                if any((not is_sym(p)) and p == c for p in pat): return True
+                continue
+            if it.branch(z3.Or(*[c == p for p in pat])): return True
         return False
 
     @M(r'core::str::<impl str>::contains::<&str>|core::str::<impl str>::contains::<&String>')
